@@ -753,6 +753,45 @@ gen_plan_sgl_enum(const ProfileCfg &pc, uint64_t run_seed, uint64_t idx)
         return p;
 }
 
+// C12, direct API: a catalogue walk - each op is one direct function with one argument made invalid
+Plan
+gen_plan_dmisuse(const ProfileCfg &pc, uint64_t run_seed)
+{
+        Rng r(run_seed);
+        Plan p;
+        p.seed = run_seed;
+        p.profile = pc.name;
+        p.prop = pc.prop;
+        p.oracles = pc.oracles;
+        p.task_cfg.push_back(pc.force_cfg >= 0 ? pc.force_cfg : (int) r.below(NCFG));
+        p.warmup = r.chance(0.5) ? 0 : r.below(256);
+        GenOpts go;
+        go.len_profile = LEN_TINY;
+        go.max_len = 256;
+        const uint32_t n = r.range(10, 60);
+        const int cnt = direct_misuse_count();
+        const uint32_t start = r.below((uint32_t) cnt);
+        const bool walk = r.chance(0.5); // consecutive catalogue entries, or random ones
+        for (uint32_t i = 0; i < n; i++) {
+                if (r.chance(0.15)) {
+                        // some ordinary traffic in between, drained again
+                        Op sub;
+                        sub.kind = OP_SUBMIT;
+                        sub.jobs.push_back(gen_job(r, gen_suite(r, -1), go));
+                        p.ops.push_back(sub);
+                        Op fl;
+                        fl.kind = OP_FLUSH_ALL;
+                        p.ops.push_back(fl);
+                }
+                Op op;
+                op.kind = OP_MISUSE;
+                op.a = 100 + (int) (walk ? (start + i) % (uint32_t) cnt : r.below((uint32_t) cnt));
+                op.b = (int) r.below(1u << 30);
+                p.ops.push_back(op);
+        }
+        return p;
+}
+
 // ------------------------------------------------------------------ C11: key preparation helpers inside ordinary traffic
 Plan
 gen_plan_keyprep(const ProfileCfg &pc, uint64_t run_seed)
@@ -776,7 +815,8 @@ gen_plan_keyprep(const ProfileCfg &pc, uint64_t run_seed)
                         static const uint16_t kls[] = { 16, 24, 32 };
                         j.key_len = kls[r.below(3)];
                         uint32_t y = r.below(10);
-                        j.hkey_len = (uint8_t) (y < 1 ? 0 : y < 5 ? r.range(1, 64) : y < 7 ? r.range(63, 66) : y < 9 ? r.range(65, 130) : r.range(127, 160));
+                        static const uint8_t edge[] = { 63, 64, 65, 127, 128, 129 }; // around both block sizes
+                        j.hkey_len = (uint8_t) (y < 1 ? 0 : y < 4 ? r.range(1, 64) : y < 7 ? edge[r.below(6)] : y < 9 ? r.range(65, 130) : r.range(127, 160));
                         op.jobs.push_back(j);
                         out.push_back(op);
                 }
